@@ -97,18 +97,19 @@ open Vorbis.Proofs.Open in
 /-- **C09_open_accounts_for_every_link** — whatever the bytes of the file are: when the open-time scan of a seekable source
 (`_open_seekable2` with `_bisect_forward_serialno`, any number of links, any nesting depth of the bisection) reports success, every
 table of the handle has exactly one entry per link (`offsets` one more), every link length is non-negative, the first link starts at
-byte 0, and the final positioning seek has not disturbed any of it. -/
+byte 0, the end of the last link is the offset of a page that is really in the file (the backward page search reports nothing
+else: `prevPageSerial_sound`), and the final positioning seek has not disturbed any of it. -/
 theorem C09_open_accounts_for_every_link (ph : Phys) (bos : List Int) (s : VF) (hk : s.seekable = true)
     (h : ((open2 ph bos).run s).1 = 0) :
     let t := ((open2 ph bos).run s).2
     0 < t.links ∧ t.offsets.size = t.links + 1 ∧ t.dataoffsets.size = t.links ∧ t.serialnos.size = t.links ∧
     t.pcmlengths.size = 2 * t.links ∧ t.infos.size = t.links ∧ (∀ i, i < t.links → 0 ≤ t.pcmlengths[2 * i + 1]!) ∧
-    t.offsets[0]! = 0 ∧ 0 ≤ t.offsets[t.links]! := by
-  obtain ⟨n, hn, sh, hl, h0, he⟩ := open2_post ph bos s hk h
+    t.offsets[0]! = 0 ∧ 0 ≤ t.offsets[t.links]! ∧ ∃ p, p ∈ ph.pages ∧ p.off = t.offsets[t.links]! := by
+  obtain ⟨n, hn, sh, hl, h0, he, hp⟩ := open2_post ph bos s hk h
   intro t
   have el : t.links = n := sh.links
   rw [el]
-  exact ⟨hn, sh.offs, sh.doffs, sh.sers, sh.pls, sh.infos, hl, h0, he⟩
+  exact ⟨hn, sh.offs, sh.doffs, sh.sers, sh.pls, sh.infos, hl, h0, he, hp⟩
 
 open Vorbis.Proofs.Open in
 /-- **C09_every_link_counts_towards_the_total** — after a successful open the overall length (what `ov_pcm_total(vf,-1)` adds up) is at
